@@ -149,11 +149,24 @@ pub struct ContractDef {
     pub code: Code,
 }
 
+/// A pre-state contract placed at a computed address (e.g. the CREATE2 address a transaction of the
+/// block can deploy to), running one of the library runtimes.
+#[derive(Clone, Debug, Serialize, Deserialize, PartialEq)]
+pub struct PlacedDef {
+    pub at: AddrRef,
+    pub balance: Bal,
+    pub storage: Vec<(u8, u64)>,
+    /// lib_runtime index: 0 storage cell, 1 self-destructor (any call), 2 empty
+    pub runtime: u8,
+}
+
 #[derive(Clone, Debug, Serialize, Deserialize, PartialEq)]
 pub struct World {
     pub eoas: Vec<EoaDef>,
     pub contracts: Vec<ContractDef>,
     pub beneficiary: AddrRef,
+    #[serde(default)]
+    pub placed: Vec<PlacedDef>,
 }
 
 #[derive(Clone, Debug, Serialize, Deserialize, PartialEq)]
@@ -697,7 +710,7 @@ pub fn compile_code(world: &World, code: &Code) -> Vec<u8> {
 /// 1: self-destructor to caller (any call)
 /// 2: empty runtime
 pub fn lib_runtime(k: u8) -> Vec<u8> {
-    let w = World { eoas: vec![], contracts: vec![], beneficiary: AddrRef::Absent(0xBE) };
+    let w = World { eoas: vec![], contracts: vec![], beneficiary: AddrRef::Absent(0xBE), placed: vec![] };
     match k % 3 {
         0 => compile_routines(
             &w,
@@ -719,7 +732,7 @@ pub const INIT_KINDS: u8 = 7;
 /// 5: init self-destructs to caller   6: SSTORE(0, SELFBALANCE... ) deploy lib 0 after reading CALLER balance
 pub fn init_code(kind: u8) -> Vec<u8> {
     let kind = kind % INIT_KINDS;
-    let w = World { eoas: vec![], contracts: vec![], beneficiary: AddrRef::Absent(0xBE) };
+    let w = World { eoas: vec![], contracts: vec![], beneficiary: AddrRef::Absent(0xBE), placed: vec![] };
     let mut a = Asm::new(&w);
     let runtime = match kind {
         0 | 4 | 6 => lib_runtime(0),
